@@ -399,7 +399,54 @@ pub fn generate(seed: u64, i: u64, tier: u32, methods: &[String]) -> Scenario {
         b.input = Some("p.json".into());
         b.output = if sink_file { Some("o2.json".into()) } else { None };
         steps.push(b);
-    } else if t < 94 {
+    } else if t < 93 {
+        template = "A;A-nearby";
+        // a second run that differs from the first in one respect only (a nearby latitude, another
+        // method or elevation, a sub-range of the dates): whatever an earlier run may have left behind
+        // (under $HOME, $TMPDIR, next to its files) must not leak into the later one
+        if inputs.start.is_none() {
+            inputs.start = Some("2024-02-20".into());
+            inputs.end = Some("2024-03-10".into());
+        }
+        let sink_file = r.chance(70);
+        let mut a = mk("A", gen_env(&mut r, clock));
+        a.output = if sink_file { Some("o1.json".into()) } else { None };
+        a.save_params = if r.chance(40) || inputs.method.is_none() || inputs.elev.is_none() { Some("p.json".into()) } else { None };
+        steps.push(a.clone());
+        clock = jump(&mut r, clock);
+        let mut near = inputs.clone();
+        match r.range(0, 5) {
+            0 | 1 => {
+                let v: f64 = inputs.lat.parse().unwrap_or(0.0);
+                let d = *r.pick(&[0.3, -0.3, 0.04, -0.04, 0.45]);
+                near.lat = format!("{}", ((v + d).clamp(-89.0, 89.0) * 10000.0).round() / 10000.0);
+            }
+            2 => near.method = Some(r.pick(methods).clone()),
+            3 => near.elev = Some(format!("{}", r.range(1, 8000))),
+            4 => {
+                let v: f64 = inputs.lon.parse().unwrap_or(0.0);
+                near.lon = format!("{}", ((v + 0.3).clamp(-179.0, 179.0) * 10000.0).round() / 10000.0);
+            }
+            _ => {
+                // a sub-range of the first run's dates
+                if let (Some(s0), Some(e0)) = (&inputs.start, &inputs.end) {
+                    if let (Ok(s0), Ok(e0)) = (s0.parse::<NaiveDate>(), e0.parse::<NaiveDate>()) {
+                        let n = (e0 - s0).num_days();
+                        if n >= 2 {
+                            near.start = Some((s0 + Duration::days(1)).to_string());
+                            near.end = Some((e0 - Duration::days(1)).to_string());
+                        }
+                    }
+                }
+            }
+        }
+        let mut a2 = a;
+        a2.env = gen_env(&mut r, clock);
+        a2.inputs = Some(near);
+        a2.output = if sink_file { Some("o2.json".into()) } else { None };
+        a2.save_params = a2.save_params.map(|_| "p2.json".to_string());
+        steps.push(a2);
+    } else if t < 95 {
         template = "A-save;A-other-overwrites;B-load";
         // two different configurations written to the same files: what is on disk afterwards must
         // be the second one only
